@@ -171,7 +171,17 @@ func (e *Engine) inline(fr *Frame, st *State, callee *ssa.Function, args []Val, 
 				vals = append(vals, e.iteVals(gs, vs))
 				continue
 			}
-			nv := e.freshLike(sub.rets[0].vals[k], "ret."+callee.Name())
+			rep := sub.rets[0].vals[k]
+			for _, r := range sub.rets {
+				if p, ok := r.vals[k].(PtrV); ok && p.Rid.S != "0" {
+					rep = r.vals[k]
+				}
+			}
+			nv := e.freshLike(rep, "ret."+callee.Name())
+			if p, ok := nv.(PtrV); ok {
+				p.NonNil = false
+				nv = p
+			}
 			for _, r := range sub.rets {
 				e.assume(Implies(r.st.guard, e.valEq(nv, r.vals[k])))
 			}
